@@ -786,13 +786,22 @@ func (fv *FnV) havocLoop(st *State, li *loopInfo, nodes []ast.Node) {
 		keys = append(keys, k)
 	}
 	sort.Strings(keys)
+	grow := func(k, old string) {
+		// objects are never de-allocated: the allocation set only grows across iterations
+		if k == "$alloc" {
+			fv.decls = append(fv.decls, fmt.Sprintf("(assert (forall ((r!q Int)) (! (=> (select %s r!q) (select %s r!q)) :pattern ((select %s r!q)))))", old, st.heap[k], st.heap[k]))
+		}
+	}
 	for _, k := range keys {
-		fv.heapGet(st, k)
+		old := fv.heapGet(st, k)
 		st.heap[k] = fv.fresh("H_"+k, fv.heapSort(k))
+		grow(k, old)
 	}
 	if mod.allHeap {
 		for _, k := range sortedKeys(fv.eff.heapSorts) {
+			old := fv.heapGet(st, k)
 			st.heap[k] = fv.fresh("H_"+k, fv.heapSort(k))
+			grow(k, old)
 		}
 	}
 }
